@@ -217,7 +217,8 @@ def run(ctx):
     shape_ok = count_shape(ctx, F, nx, ii)
 
     # D1 arithmetic
-    region = F.region([nx_raw, ii])
+    region = F.region([nx_raw, ii] + [b_ for p_, b_ in sorted(F.bodies.items()) if b_.crate == "selium" and p_.lstrip("<").startswith("selium::keep_alive::backoff_strategy") and "{closure" not in p_
+                                         and p_ not in F.derived_bodies()])
     bodies = sorted(region.values(), key=lambda b: b.path)
 
     def sub_one(site, body):
@@ -341,6 +342,10 @@ def run(ctx):
             ctx.check(bool(mins) and must and via, "C13.D2.clamp", "next:unclamped-path",
                       "with a maximum configured, every path to the yielded delay passes min(delay, max)", s["span"])
 
+    # the only ordering operation applied to the law's value is min(.., configured maximum): a floor (`max`, `clamp`) changes the law for
+    # small steps, and Ord::clamp panics when its bounds cross
+    extra = [c for c in nx.calls() if strip_generics(c.callee) in ("core::cmp::Ord::max", "core::cmp::Ord::clamp", "core::cmp::max", "core::cmp::PartialOrd::clamp") and "Duration" in (c.self_ty or "") + " ".join(c.arg_tys)]
+    ctx.check(not extra, "C13.D2.clamp", "next:extra-bound", "the delay is bounded from above by the configured maximum only (no floor / two-sided clamp: %s)" % (sorted({c.name() for c in extra}) or "none"), (extra or [nx])[0].span)
     # builders: configuring one setting keeps the others (a `..Default::default()` in `with_max_duration` silently resets the attempt budget)
     bs = [b_ for p_, b_ in sorted(F.bodies.items()) if p_.startswith("selium::keep_alive::backoff_strategy::BackoffStrategy::with_") and "{closure" not in p_]
     ctx.touch(*bs)
@@ -416,8 +421,16 @@ def run(ctx):
             powok = any(any(op_local(a) in facv for a in c.args) and any(op_local(a) in curv for a in c.args) for c in pows)
             powv = flow.derived(nx, {c.dest["l"] for c in pows if c.dest}, calls="all")
             mulok = any(any(op_local(a) in stepv for a in c.args) and any(op_local(a) in powv for a in c.args) for c in muls)
-            ok = uses_step and powok and mulok
-            want = "multiplies step by factor raised to a power of the attempt number"
+            # the power keeps its 64-bit width on the way into the product: narrowing it (u32::try_from / `as u32`, e.g. to use
+            # Duration::saturating_mul(u32)) flattens the schedule as soon as factor^(n-1) passes 2^32
+            mulv = flow.derived(nx, {c.dest["l"] for c in muls if c.dest and any(op_local(a) in stepv for a in c.args)}, calls="all")
+            mulv |= flow.derived(nx, {pl_["l"] for i_, j_, pl_, rv_, s_ in nx.assigns() if rv_["k"] == "binop" and rv_["op"] in ("Mul", "MulWithOverflow") and
+                                      (op_local(rv_["a"]) in powv or op_local(rv_["b"]) in powv)}, calls="all")
+            narrow = [c for c in nx.calls() if c.bb in blocks and c.name() in ("try_from", "try_into") and any(op_local(a) in powv and op_local(a) not in mulv for a in c.args) and
+                      any(t_ in (c.t.get("dest_ty") or "") + " ".join(c.t.get("gargs") or []) + c.full for t_ in ("u32", "u16", "u8", "i32"))]
+            narrow += [1 for i_, j_, pl_, rv_, s_ in nx.assigns() if i_ in blocks and rv_["k"] == "cast" and rv_.get("ty") in ("u32", "u16", "u8", "i32") and op_local(rv_["op"]) in powv and op_local(rv_["op"]) not in mulv]
+            ok = uses_step and powok and mulok and not narrow
+            want = "multiplies step by factor raised to a power of the attempt number" + (" (the power is narrowed to 32 bits before the product)" if narrow else "")
         else:
             ok, want = False, "unknown strategy"
         if ok and vname in ("Linear", "Exponential") and muls:
